@@ -700,6 +700,12 @@ func (g *Gen) run(n int) {
 				if g.r.Intn(9) == 0 {
 					g.emit("RESTART")
 					g.sessions = nil
+					// what was acknowledged is read again right after the restart: manifests by digest (children of indexes among them) and tags
+					for k := 0; k < 3 && len(g.manIn["r1"]) > 0; k++ {
+						name := g.pick(g.manIn["r1"])
+						g.emit(fmt.Sprintf("%s r1 sha256:%s accept=%s", g.pick([]string{"MGET", "MGET", "MHEAD"}), name, g.manMT[name]))
+					}
+					g.emit("TAGS r1")
 				} else if g.r.Intn(3) == 0 {
 					g.refsStep()
 				} else {
@@ -867,6 +873,7 @@ func (g *Gen) refsStep() {
 			line += " at=" + g.pick([]string{"x/a", "x/b", "cfg", "empty", "zz"})
 		}
 		out := g.emit(line)
+		firstOut := out
 		// follow the Link chain, sometimes on another repository or subject, sometimes with a stale page
 		for hops := 0; hops < 4 && strings.Contains(out, "link=next(cache="); hops++ {
 			rest := out[strings.Index(out, "link=next(cache=")+len("link=next(cache="):]
@@ -899,6 +906,17 @@ func (g *Gen) refsStep() {
 		}
 		if g.r.Intn(4) == 0 {
 			g.emit(line + " cache=" + g.pick([]string{"sha256:?9", "bad:1", sj}) + " page=" + g.pick([]string{"1", "2", "-1", "x", "0"}))
+		}
+		// a continuation that has gone stale: the list changes (a listed artifact is deleted by digest) and the client goes on
+		// with the cache digest it was given, on a path that misses the page cache (a filter not used with it before)
+		if i := strings.Index(firstOut, "link=next(cache="); i >= 0 && g.r.Intn(3) == 0 && len(g.manIn[repo]) > 0 {
+			rest := firstOut[i+len("link=next(cache="):]
+			if j := strings.Index(rest, ",page="); j > 0 {
+				cache := rest[:j]
+				g.emit(fmt.Sprintf("MDEL %s sha256:%s", repo, g.pick(g.manIn[repo])))
+				g.emit(fmt.Sprintf("REFS %s %s cache=%s page=1", repo, sj, cache))
+				g.emit(fmt.Sprintf("REFS %s %s at=%s cache=%s page=%s", repo, sj, g.pick([]string{"zz", "x/a", "x/b"}), cache, g.pick([]string{"1", "2"})))
+			}
 		}
 		if g.r.Intn(3) == 0 {
 			g.emit(line)
